@@ -454,7 +454,39 @@ func runC06(c *eng.Ctx) {
 			c.Check(!oneSided, "persisted flag Partition."+f.Name(), pos, "the flag is written with more than one value (or a variable)", "the persisted flag Partition."+f.Name()+" is only ever stored as true: once set it is never cleared, so a snapshot taken after the condition ended restores it as still set")
 		}
 	}
-	c.Floor(6)
+	// persisted flags that have a run-time counterpart (a paused partition does not run its loops, a read-only one refuses
+	// appends) must be re-applied when a partition object is built from its protobuf — after a snapshot restore, or when
+	// pause/resume replaces the partition — otherwise metadata and behaviour disagree after a restart
+	{
+		var loaders []*ssa.Function
+		for _, k := range []string{"server.(*metadataAPI).addPartition", "server.(*Server).newPartition"} {
+			if fn := c.Fn(k); fn != nil {
+				loaders = append(loaders, fn)
+			}
+		}
+		for _, flag := range []string{"Paused", "Readonly"} {
+			applied := ""
+			for _, fn := range loaders {
+				tests := eng.BoolEdges(fn, func(v ssa.Value) bool {
+					f, _ := eng.FieldRead(v)
+					return f != nil && f.Name() == flag && f.Pkg() != nil && strings.HasSuffix(f.Pkg().Path(), "server/protocol")
+				}, true)
+				if len(tests) == 0 {
+					continue
+				}
+				// something is done on that edge: a call reachable from it
+				q := &eng.PathQuery{Fn: fn, FromEdges: tests, Target: func(x ssa.Instruction) bool {
+					_, isCall := x.(*ssa.Call)
+					return isCall
+				}}
+				if q.Find() != nil {
+					applied = ir.FuncKey(fn)
+				}
+			}
+			c.Check(applied != "", "persisted flag Partition."+flag+" is re-applied when a partition is loaded", "-", "tested in "+applied+" and acted upon", "no code that builds a partition from its protobuf looks at Partition."+flag+": after a snapshot restore (or a pause/resume, which replaces the partition object) the metadata says "+strings.ToLower(flag)+" but the partition does not behave so")
+		}
+	}
+	c.Floor(8)
 
 	// ---- R06.5 idempotency / epoch stamping
 	c.Rule("R06.5", "K1")
